@@ -108,6 +108,7 @@ def job_algebra(ctx, mode, fa, fb, fc=None, floats=False, which="pair"):
             o["inv"] = a + (-1 * a)
             o["inv_empty"] = not bool(o["inv"])
             o["inv_eq0"] = (o["inv"] == D())
+            o["inv_hash"], o["zero_hash"] = o["inv"].__hash__(), D().__hash__()
             o["sub"], o["addneg"] = a - b, a + (-1 * b)
             o["rmul"], o["mul"] = 3 * a, a * 3
             o["comm_eq"] = (o["ab"] == o["ba"])
@@ -136,6 +137,7 @@ def job_algebra(ctx, mode, fa, fb, fc=None, floats=False, which="pair"):
                     ("a + P0 is a", z_same(o["a0"], a)), ("P0 + a is a", z_same(o["0a"], a)),
                     ("a + (-1*a) is empty (bool)", bool(o["inv_empty"])),
                     ("a + (-1*a) == Duration()", bool(o["inv_eq0"])),
+                    ("a + (-1*a) hashes like Duration() (equal values, equal hash keys)", hashkey_eq(o["inv_hash"], o["zero_hash"])),
                     ("a - b == a + (-1*b)", z_same(o["sub"], o["addneg"])),
                     ("3*a == a*3", z_same(o["rmul"], o["mul"]))]
             y3, m3, s3 = z_comps(o["mul"])
@@ -313,6 +315,7 @@ def _replay(case, data, mode):
             ("a+b == b+a", _py_comps(a + b) == _py_comps(b + a) and (a + b) == (b + a)),
             ("identity", _py_comps(a + D()) == ca and _py_comps(D() + a) == ca),
             ("inverse empty", (not bool(a + (-1 * a))) and (a + (-1 * a)) == D()),
+            ("inverse hashes like the empty duration", hash(a + (-1 * a)) == hash(D())),
             ("a-b == a+(-1*b)", _py_comps(a - b) == _py_comps(a + (-1 * b))),
             ("3*a", _py_comps(3 * a) == tuple(3 * x for x in ca) and _py_comps(a * 3) == _py_comps(3 * a)),
         ]
